@@ -11,6 +11,7 @@ package main
 
 import (
 	"bufio"
+	"bytes"
 	"flag"
 	"fmt"
 	"os"
@@ -41,7 +42,7 @@ func (r *rng) intn(n int) int {
 	return int(r.next() % uint64(n))
 }
 func (r *rng) rangeIncl(lo, hi int) int { return lo + r.intn(hi-lo+1) }
-func (r *rng) chance(pct int) bool       { return r.intn(100) < pct }
+func (r *rng) chance(pct int) bool      { return r.intn(100) < pct }
 
 // ---------------------------------------------------------------- history
 
@@ -105,6 +106,20 @@ type stats struct {
 	moves      int
 }
 
+func (s *stats) merge(o *stats) {
+	for k, v := range o.ops {
+		s.ops[k] += v
+	}
+	for k, v := range o.results {
+		s.results[k] += v
+	}
+	if o.maxLive > s.maxLive {
+		s.maxLive = o.maxLive
+	}
+	s.oracleFail += o.oracleFail
+	s.moves += o.moves
+}
+
 func newStats() *stats { return &stats{ops: map[string]int{}, results: map[string]int{}} }
 
 type hist struct {
@@ -120,6 +135,11 @@ type hist struct {
 	passesWithMove int
 	expect         defrag.DefragmentationStats // moved counters the run statistics must show
 	expectValid    bool
+
+	// replay: the ORD line recorded after the END being executed (nil = none) and whether the real
+	// code took another order this time
+	wantOrd     []string
+	ordMismatch bool
 }
 
 func newHist(c cfg, out *bufio.Writer, st *stats) *hist {
@@ -483,6 +503,10 @@ func (h *hist) exec(f []string) bool {
 			ord[i] = strconv.Itoa(id)
 		}
 		fmt.Fprintln(h.out, strings.TrimSpace("ORD "+strings.Join(ord, " ")))
+		if h.wantOrd != nil && len(h.wantOrd) == len(ord) && strings.Join(h.wantOrd, " ") != strings.Join(ord, " ") {
+			h.ordMismatch = true
+		}
+		h.wantOrd = nil
 		w.passOpen = false
 		switch {
 		case panicked:
@@ -580,30 +604,87 @@ func main() {
 		}
 		sc := bufio.NewScanner(fl)
 		sc.Buffer(make([]byte, 1<<20), 1<<26)
-		var h *hist
-		nh := 0
+		// group the input by history
+		var hists [][][]string
 		for sc.Scan() {
-			line := sc.Text()
-			f := strings.Fields(line)
+			f := strings.Fields(sc.Text())
 			if len(f) == 0 {
 				continue
 			}
-			switch {
-			case f[0] == "H":
-				fmt.Fprintln(out, line)
-				nh++
-				h = nil
-			case f[0] == "CFG":
-				c := parseCfg(line)
-				fmt.Fprintln(out, cfgLine(c))
-				h = newHist(c, out, st)
-			case opKinds[f[0]]:
-				if h != nil {
-					h.exec(f)
-				} else if f[0] == "END" {
-					fmt.Fprintln(out, "END")
+			if f[0] == "H" {
+				hists = append(hists, nil)
+			}
+			if len(hists) > 0 && (f[0] == "H" || f[0] == "CFG" || opKinds[f[0]]) {
+				hists[len(hists)-1] = append(hists[len(hists)-1], f)
+			}
+		}
+		nh := len(hists)
+		// The order in which BlockListCompletePass swaps several immovable blocks is not determined
+		// by the program (Go map iteration).  To replay a recorded trace exactly, a history whose
+		// observed ORD differs from the recorded ORD line is executed again from its start (the
+		// real code is run every time; only an attempt that took the recorded order is printed).
+		const maxAttempts = 20000
+		for _, lines := range hists {
+			var buf bytes.Buffer
+			var hst *stats
+			for attempt := 0; ; attempt++ {
+				buf.Reset()
+				w := bufio.NewWriter(&buf)
+				hst = newStats()
+				var h *hist
+				mismatch := false
+				for i, f := range lines {
+					switch {
+					case f[0] == "H":
+						fmt.Fprintln(w, strings.Join(f, " "))
+					case f[0] == "CFG":
+						c := parseCfg(strings.Join(f, " "))
+						fmt.Fprintln(w, cfgLine(c))
+						h = newHist(c, w, hst)
+					case h != nil:
+						if f[0] == "END" && i+1 < len(lines) && lines[i+1][0] == "ORD" {
+							h.wantOrd = append([]string{}, lines[i+1][1:]...)
+						}
+						h.exec(f)
+						if h.ordMismatch {
+							mismatch = true
+						}
+					case f[0] == "END":
+						fmt.Fprintln(w, "END")
+					}
+					if mismatch {
+						break
+					}
+				}
+				w.Flush()
+				if !mismatch || attempt >= maxAttempts {
+					if mismatch {
+						// give up: print one complete execution with the order it took
+						buf.Reset()
+						w = bufio.NewWriter(&buf)
+						hst = newStats()
+						h = nil
+						for _, f := range lines {
+							switch {
+							case f[0] == "H":
+								fmt.Fprintln(w, strings.Join(f, " "))
+							case f[0] == "CFG":
+								c := parseCfg(strings.Join(f, " "))
+								fmt.Fprintln(w, cfgLine(c))
+								h = newHist(c, w, hst)
+							case h != nil:
+								h.exec(f)
+							case f[0] == "END":
+								fmt.Fprintln(w, "END")
+							}
+						}
+						w.Flush()
+					}
+					break
 				}
 			}
+			out.Write(buf.Bytes())
+			st.merge(hst)
 		}
 		printSummary(st, nh)
 	default:
